@@ -99,6 +99,9 @@ MECHS = {
     "atomicval": ("var AV@ atomic.Value\n", ["AV@.Store(o)", "go func() { touch@(AV@.Load().(*T@), rdy, done) }()"]),
     "afterfunc": ("", ["time.AfterFunc(0, func() { touch@(o, rdy, done) })"]),
     "gonested": ("", ["go func() { go touch@(o, rdy, done) }()"]),
+    # go statement inside a loop body that adds no points-to edge: the leak reaches the code after the loop only through the
+    # loop header's re-analysis (back edge; EscapeGraph.Matches must see the changed status)
+    "goloop": ("", ["for i := 0; i < 1; i++ {", "go touch@(o, rdy, done)", "}"]),
     "retpub": ("var G@ *T@\nfunc mkpub@() *T@ {\n\tn := mk@()\n\tG@ = n\n\treturn n\n}\n", ["__ALLOC mkpub@()", "go func() { touch@(G@, rdy, done) }()"]),
     "tuplepub": ("var G@ *T@\nfunc mkpub@() (*T@, int) {\n\tn := mk@()\n\tG@ = n\n\treturn n, 1\n}\n",
                  ["__ALLOC2 mkpub@()", "go func() { touch@(G@, rdy, done) }()"]),
@@ -145,11 +148,39 @@ ACCS = {
     "closureacc": ("", ["fa := func() {", "t.x = 4 // ACC", "}"], ["fa()"]),
     "deferacc": ("func dset@(o *T@) {\n\to.x = 5 // ACC\n}\nfunc dwrap@(o *T@) { defer dset@(o) }\n", [], ["dwrap@(t)"]),
     "loopacc": ("", [], ["for i := 0; i < 2; i++ {", "t.x = i // ACC", "}"]),
+    "ifacelast": ("type S2@ interface{ Set2(a, b *T@, n int) }\ntype w2@ struct{}\nfunc (*w2@) Set2(a, b *T@, n int) {\n\tb.x = n // ACC\n}\n",
+                  ["var sv2 S2@ = &w2@{}"], ["sv2.Set2(mk@(), t, 3)"]),
     "globalstore": ("", [], ["GI@ = 7 // GACC"]),
     "globalload": ("", [], ["r += GI@ // GACC"]),
 }
 
 TARGETS = ("self", "child", "latechild")
+
+import os as _os
+
+SPECIAL_DIR = _os.path.join(_os.path.dirname(_os.path.dirname(_os.path.dirname(_os.path.abspath(__file__)))), "corpus", "c14")
+
+
+def load_specials(d=SPECIAL_DIR):
+    """committed scenario templates corpus/c14/*.tmpl -> {name: (declarations, body lines)}"""
+    out = {}
+    if not _os.path.isdir(d):
+        return out
+    for f in sorted(_os.listdir(d)):
+        if not f.endswith(".tmpl"):
+            continue
+        decl, body, mode = [], [], None
+        for l in open(_os.path.join(d, f)).read().split("\n"):
+            if l.strip() == "//decl":
+                mode = "d"
+            elif l.strip() == "//body":
+                mode = "b"
+            elif mode == "d":
+                decl.append(l)
+            elif mode == "b" and l.strip():
+                body.append(l.strip())
+        out[f[:-5]] = ("\n".join(decl) + "\n", body)
+    return out
 
 
 def _sub(txt, i):
@@ -158,6 +189,14 @@ def _sub(txt, i):
 
 def scenario_c14(i, mech, acc, tgt, entry="call"):
     """-> (top-level declarations, function body lines) of scenario i"""
+    if mech == "special":
+        decl, body = load_specials()[acc]
+        # the line-role scanner keys scenarios on `type T<i> struct`: give every special such an anchor
+        decl = "type T@ struct{}\n\n" + decl
+        body = list(body)
+        if entry == "go":
+            body.append("fin <- true")
+        return _sub(decl, i), [_sub(l, i) for l in body]
     mdecl, share = MECHS[mech]
     adecl, pre, accs = ACCS[acc]
     decl = COMMON + mdecl + adecl
@@ -298,8 +337,14 @@ TAINTS = {
     "append": (["s := t.s[:0]"], ["s = append(s, source@()) // TAINT", "keep(len(s))"], "sink@(o.s[0]) // SINK"),
     "callee": ([], ["setd@(t, source@()) // TAINT"], "sink@(o.d) // SINK"),
     "structassign": ([], ["*t = T@{d: source@(), m: t.m, s: t.s, b: t.b, p: t.p} // TAINT"], "sink@(o.d) // SINK"),
+    # tainted value returned by a callee, then stored into the shared object
+    "idcall": ([], ["v := idf@(source@()) // TAINT", "t.d = v"], "sink@(o.d) // SINK"),
+    # tainted write through the LAST pointer parameter of a method reached through an interface call
+    "ifaceput": (["var wi W@ = &w@{}"], ["wi.Put(mk@(), t, source@()) // TAINT"], "sink@(o.d) // SINK"),
 }
-TAINT_DECL = {"callee": "func setd@(o *T@, v string) { o.d = v }\n"}
+TAINT_DECL = {"callee": "func setd@(o *T@, v string) { o.d = v }\n",
+              "idcall": "func idf@(s string) string { return s }\n",
+              "ifaceput": "type W@ interface{ Put(a, b *T@, v string) }\ntype w@ struct{}\nfunc (*w@) Put(a, b *T@, v string) { b.d = v }\n"}
 
 
 def scenario_c13(i, mech, taint, tgt, entry="call"):
